@@ -1,0 +1,18 @@
+//go:build verif
+
+package runtime
+
+// Verification hooks for property C03 (add-only; compiled only with -tags verif).
+
+// VerifReplace exposes the unexported rune-wise replacer.
+func VerifReplace(s string, replacementTable []string) string { return replace(s, replacementTable) }
+
+// VerifJSStrReplacementTable returns a copy of the table used for values placed inside JavaScript string literals.
+func VerifJSStrReplacementTable() []string {
+	return append([]string(nil), jsStrReplacementTable...)
+}
+
+// VerifLowUnicodeReplacementTable returns a copy of the table that replace consults first (runes below its length).
+func VerifLowUnicodeReplacementTable() []string {
+	return append([]string(nil), lowUnicodeReplacementTable...)
+}
